@@ -21,9 +21,10 @@ import (
 // muxPair builds two MuxBrokers over one yamux session over a virtual
 // connection, each side in its own domain, with Run started as the library does.
 type muxPair struct {
-	hs, ps *yamux.Session
-	hb, pb *plugin.MuxBroker
-	raw    *rawMuxPeer // a hand-written peer in place of one of the brokers
+	hs, ps     *yamux.Session
+	hb, pb     *plugin.MuxBroker
+	raw        *rawMuxPeer // a hand-written peer in place of one of the brokers
+	hostClient *plugin.RPCClient
 }
 
 func yamuxCfg() *yamux.Config {
@@ -33,6 +34,36 @@ func yamuxCfg() *yamux.Config {
 }
 
 func newMuxPair(x *vs.Exec) *muxPair { return newMuxPairRaw(x, 0) }
+
+// newMuxPairHostClient: the host end is go-plugin's own RPCClient (NewRPCClient creates the yamux session with go-plugin's
+// settings), the plugin end a hand-written peer on a stock yamux session that starts accepting streams only after slow.
+func newMuxPairHostClient(x *vs.Exec, slow time.Duration) (*muxPair, error) {
+	a, b := vnet.NewPair(x.Domain("host"), x.Domain("plugin"))
+	m := &muxPair{}
+	ready := make(chan struct{})
+	x.Go("plugin", func() {
+		s, err := yamux.Server(b, yamuxCfg())
+		if err != nil {
+			panic(err)
+		}
+		m.ps = s
+		m.raw = newRawMuxPeer(x, s, "plugin")
+		m.raw.whole = true
+		close(ready)
+		if slow > 0 {
+			x.Pause(slow) // a plugin that is busy for a moment before it gets round to its accept loop
+		}
+		m.raw.acceptLoop()
+	})
+	<-ready
+	rc, err := plugin.NewRPCClient(a, plugin.PluginSet{})
+	if err != nil {
+		return nil, err
+	}
+	m.hb = rc.VBroker()
+	m.hostClient = rc
+	return m, nil
+}
 
 // newMuxPairRaw: rawSide 'h' or 'p' makes that end a hand-written peer (no MuxBroker there, see rawMuxPeer).
 func newMuxPairRaw(x *vs.Exec, rawSide byte) *muxPair {
@@ -82,11 +113,12 @@ type muxEnd interface {
 // but unlike go-plugin's own: it writes the id and the acknowledgement in two pieces (1 + 3 bytes, 10 ms apart), so
 // they travel in separate yamux frames.
 type rawMuxPeer struct {
-	x    *vs.Exec
-	sess *yamux.Session
-	dom  string
-	mu   sync.Mutex
-	in   map[uint32]chan net.Conn
+	x     *vs.Exec
+	sess  *yamux.Session
+	dom   string
+	mu    sync.Mutex
+	in    map[uint32]chan net.Conn
+	whole bool // ids and acknowledgements in one piece
 }
 
 func newRawMuxPeer(x *vs.Exec, s *yamux.Session, dom string) *rawMuxPeer {
@@ -107,6 +139,10 @@ func (r *rawMuxPeer) slot(id uint32) chan net.Conn {
 func (r *rawMuxPeer) inPieces(w io.Writer, v uint32) error {
 	var b [4]byte
 	binary.LittleEndian.PutUint32(b[:], v)
+	if r.whole {
+		_, err := w.Write(b[:])
+		return err
+	}
 	if _, err := w.Write(b[:1]); err != nil {
 		return err
 	}
@@ -212,7 +248,16 @@ func init() {
 			if p["raw"] != "" {
 				rawSide = p["raw"][0]
 			}
-			m := newMuxPairRaw(x, rawSide)
+			m := (*muxPair)(nil)
+			if p["hostclient"] == "1" {
+				var err error
+				if m, err = newMuxPairHostClient(x, ms(p["slowaccept"])); err != nil {
+					x.Fail("ENGINE", "NewRPCClient: %v", err)
+					return
+				}
+			} else {
+				m = newMuxPairRaw(x, rawSide)
+			}
 			if p["probe"] == "1" && m.raw != nil {
 				// the hand-written peer once opens a stream and closes it again without writing an id (an abandoned dial, a probe)
 				if st, err := m.raw.sess.Open(); err == nil {
@@ -220,7 +265,16 @@ func init() {
 				}
 			}
 			x.Release()
-			x.OnCleanup(func() { m.hs.Close(); m.ps.Close() })
+			x.OnCleanup(func() {
+				if m.hostClient != nil {
+					m.ps.Close() // first: the hand-written peer serves no control stream, Close's Quit call must fail, not wait
+					m.hostClient.Close()
+				}
+				if m.hs != nil {
+					m.hs.Close()
+				}
+				m.ps.Close()
+			})
 			d := newDone(x)
 			x.Put("d", d)
 			for i, pat := range strings.Split(p["pat"], ",") {
@@ -360,7 +414,13 @@ func init() {
 				x.Fail("L", "blocked forever: %s", e)
 			}
 			m := x.Data["m"].(*muxPair)
-			m.hs.Close()
+			if m.hostClient != nil {
+				m.ps.Close()
+				m.hostClient.Close()
+			}
+			if m.hs != nil {
+				m.hs.Close()
+			}
 			m.ps.Close()
 			x.Quiesce(6 * time.Second)
 			checkNoLeak(x, "hashicorp/go-plugin.")
